@@ -10,6 +10,7 @@ import random
 from ..core import check
 
 ID = "C12"
+IMPORTS = ['rig.machine_control.regions']
 LEVEL = "exploration"
 TECHNIQUE = ("runtime post-condition monitor: decode-and-compare of returned "
              "(region, core mask) pairs against the requested core set")
